@@ -64,6 +64,57 @@ type Log struct {
 	calls  int64
 	Events []*Event
 	Sent   [][]byte // body of every answer actually sent (after fault injection)
+	bodies []*trackedBody
+}
+
+// trackedBody is a response body that remembers whether the caller read it to the end or closed it:
+// net/http gives a connection back to its pool only then.
+type trackedBody struct {
+	r       *bytes.Reader
+	status  int
+	size    int
+	drained int32
+	closed  int32
+}
+
+func (b *trackedBody) Read(p []byte) (int, error) {
+	n, err := b.r.Read(p)
+	if err != nil {
+		atomic.StoreInt32(&b.drained, 1)
+	}
+	return n, err
+}
+
+func (b *trackedBody) Close() error {
+	atomic.StoreInt32(&b.closed, 1)
+	return nil
+}
+
+func (l *Log) track(status int, body []byte) io.ReadCloser {
+	b := &trackedBody{r: bytes.NewReader(body), status: status, size: len(body)}
+	if l != nil {
+		l.mu.Lock()
+		l.bodies = append(l.bodies, b)
+		l.mu.Unlock()
+	}
+	return b
+}
+
+// BodyStats returns how many non-empty answer bodies were handed to the caller and, of those, how many
+// were neither read to the end nor closed (described as "status/size").
+func (l *Log) BodyStats() (handed int, leaked []string) {
+	l.mu.Lock()
+	defer l.mu.Unlock()
+	for _, b := range l.bodies {
+		if b.size == 0 {
+			continue
+		}
+		handed++
+		if atomic.LoadInt32(&b.drained) == 0 && atomic.LoadInt32(&b.closed) == 0 {
+			leaked = append(leaked, fmt.Sprintf("status-%d/%d-bytes", b.status, b.size))
+		}
+	}
+	return
 }
 
 func (l *Log) addSent(b []byte) {
@@ -158,6 +209,36 @@ type Service struct {
 	Before func(c *Call)
 	// After is called once the answer of a call has been computed.
 	After func(c *Call)
+
+	// Wire styles: variations a spec-abiding service may show without changing the meaning of its answers.
+	EmptyErrors bool // successful answers carry "errors": []
+	OKStatus    int  // status of successful answers (0: 200; 203, 207 ...)
+	Redirect    bool // the registered path answers 307 to path + "/" (a router mounting the endpoint at /graphql/)
+}
+
+// path is the path part of the url the service is registered under.
+func (s *Service) path() string {
+	u := strings.TrimPrefix(strings.TrimPrefix(s.URL, "http://"), "ws://")
+	if i := strings.Index(u, "/"); i >= 0 {
+		return u[i:]
+	}
+	return "/"
+}
+
+// ApplyWire parses a comma separated list of wire styles (slash is handled by the caller: it is part of the url).
+func (s *Service) ApplyWire(w string) {
+	for _, f := range strings.Split(w, ",") {
+		switch f {
+		case "emptyerrs":
+			s.EmptyErrors = true
+		case "s203":
+			s.OKStatus = 203
+		case "s207":
+			s.OKStatus = 207
+		case "redirect":
+			s.Redirect = true
+		}
+	}
 }
 
 func NewService(name, url, sdl string, data *gen.Data, log *Log) (*Service, error) {
@@ -168,6 +249,10 @@ func NewService(name, url, sdl string, data *gen.Data, log *Log) (*Service, erro
 	host := strings.TrimPrefix(strings.TrimPrefix(url, "http://"), "ws://")
 	if i := strings.Index(host, "/"); i >= 0 {
 		host = host[:i]
+	}
+	if h := sha1.Sum([]byte(sdl)); h[0]%2 == 1 {
+		// half of the services word the default values of their introspection answer like the reference implementation
+		engine.UseReferenceStyle(s)
 	}
 	return &Service{Name: name, URL: url, Host: host, SDL: sdl, Schema: s, Data: data, Log: log}, nil
 }
@@ -297,6 +382,7 @@ func (t *Transport) Register(s *Service) {
 }
 
 func (t *Transport) Unregister(s *Service) {
+	engine.ForgetStyle(s.Schema)
 	t.mu.Lock()
 	delete(t.svcs, s.Host)
 	t.mu.Unlock()
@@ -308,6 +394,16 @@ func jsonResp(req *http.Request, status int, body []byte) *http.Response {
 		Header: http.Header{"Content-Type": {"application/json"}}, Body: io.NopCloser(bytes.NewReader(body)),
 		ContentLength: int64(len(body)), Request: req,
 	}
+}
+
+// tracked replaces the body of resp by one the log keeps an eye on.
+func (s *Service) tracked(resp *http.Response) *http.Response {
+	if resp == nil || resp.Body == nil {
+		return resp
+	}
+	b, _ := io.ReadAll(resp.Body)
+	resp.Body = s.Log.track(resp.StatusCode, b)
+	return resp
 }
 
 type wireReq struct {
@@ -339,7 +435,19 @@ func (t *Transport) RoundTrip(req *http.Request) (*http.Response, error) {
 		body, _ = io.ReadAll(req.Body)
 		req.Body.Close()
 	}
-	return s.ServeBytes(req, req.Header.Get("Content-Type"), body)
+	if want := s.path(); req.URL.Path != want && !(s.Redirect && req.URL.Path == want+"/") {
+		// the service is mounted at one path only
+		return s.tracked(jsonResp(req, 404, []byte("404 page not found\n"))), nil
+	}
+	if s.Redirect && !strings.HasSuffix(req.URL.Path, "/") {
+		// not a call the service sees: the router in front of it sends the client to the mounted path
+		u := *req.URL
+		u.Path += "/"
+		return &http.Response{StatusCode: 307, Status: "307 Temporary Redirect", Proto: "HTTP/1.1", ProtoMajor: 1, ProtoMinor: 1,
+			Header: http.Header{"Location": {u.String()}}, Body: http.NoBody, Request: req}, nil
+	}
+	resp, err := s.ServeBytes(req, req.Header.Get("Content-Type"), body)
+	return s.tracked(resp), err
 }
 
 // ServeBytes answers one HTTP call.
@@ -410,6 +518,13 @@ func (s *Service) ServeBytes(req *http.Request, contentType string, body []byte)
 		}
 		return resp, err
 	}
+	if s.EmptyErrors {
+		for _, r := range resps {
+			if _, ok := r["errors"]; !ok {
+				r["errors"] = []any{}
+			}
+		}
+	}
 	var out []byte
 	if isArray {
 		out, _ = json.Marshal(resps)
@@ -417,7 +532,11 @@ func (s *Service) ServeBytes(req *http.Request, contentType string, body []byte)
 		out, _ = json.Marshal(resps[0])
 	}
 	s.Log.addSent(out)
-	return jsonResp(req, 200, out), nil
+	status := 200
+	if s.OKStatus != 0 {
+		status = s.OKStatus
+	}
+	return jsonResp(req, status, out), nil
 }
 
 // FaultKinds lists the single-fault kinds understood by applyFault.  The first
